@@ -358,10 +358,9 @@ package directconnection
 //@ fn (*Comp).NotifySend
 //@   property C10
 //@   requires wakeWF(c)
-// (unconditional "a tick is pending at or after now" is property C09's claim about TickNow; C10 only relies on what the
-// TickNow contract labels as guaranteed by the code: unless a tick was already recorded for exactly the current instant)
+// after NotifySend a tick of the connection is pending at or after the current instant (TickNow's C09 postcondition)
 //@   label C10.notifysend.tick
-//@   ensures !(old(tsOf(c).hasScheduledTick) && int(old(tsOf(c).nextTickTime)) == now) ==> sched[tsOf(c).handlerID][tsOf(c).nextTickTime] >= 1 && int(tsOf(c).nextTickTime) >= now
+//@   ensures sched[tsOf(c).handlerID][tsOf(c).nextTickTime] >= 1 && int(tsOf(c).nextTickTime) >= now
 //@   label C10.notifysend.wf
 //@   ensures wakeWF(c)
 //@   assigns sched, lastSecondary, tsOf(c).nextTickTime, tsOf(c).hasScheduledTick, issued, key("G|github.com/sarchlab/akita/v5/timing.idGenerator|"), key("G|github.com/sarchlab/akita/v5/timing.idGeneratorInstantiated|"), key("O|timing.sequentialIDGenerator|nextID"), key("O|timing.parallelIDGenerator|nextID")
@@ -381,7 +380,7 @@ package directconnection
 //@   label C10.notifyavail.onlyplugged
 //@   ensures forall q int :: availCnt[q] != old(availCnt)[q] ==> 0 <= slot[q] && slot[q] < len(mwOf(c).ports.ports) && ifaceval(mwOf(c).ports.ports[slot[q]]) == q
 //@   label C10.notifyavail.tick
-//@   ensures !(old(tsOf(c).hasScheduledTick) && int(old(tsOf(c).nextTickTime)) == now) ==> sched[tsOf(c).handlerID][tsOf(c).nextTickTime] >= 1 && int(tsOf(c).nextTickTime) >= now
+//@   ensures sched[tsOf(c).handlerID][tsOf(c).nextTickTime] >= 1 && int(tsOf(c).nextTickTime) >= now
 //@   label C10.notifyavail.wf
 //@   ensures wakeWF(c) && compWF(c) && unchanged(mwOf(c).ports.ports)
 //@   assigns availCnt, sched, lastSecondary, tsOf(c).nextTickTime, tsOf(c).hasScheduledTick, issued, key("G|github.com/sarchlab/akita/v5/timing.idGenerator|"), key("G|github.com/sarchlab/akita/v5/timing.idGeneratorInstantiated|"), key("O|timing.sequentialIDGenerator|nextID"), key("O|timing.parallelIDGenerator|nextID")
